@@ -794,6 +794,7 @@ func (ex *Exec) mapLookup(m *Map, k Value) (Value, bool) {
 	if m == nil {
 		return nil, false
 	}
+	ex.noteMap(m, false)
 	k = ex.normKey(k)
 	if h, ok := hashable(k); ok {
 		// concrete key; symbolic keys stored in the map must still be compared
@@ -842,6 +843,7 @@ func (ex *Exec) mapUpdate(m *Map, k, v Value) {
 	if m == nil {
 		panic(ex.rtPanic("assignment to entry in nil map"))
 	}
+	ex.noteMap(m, true)
 	k = ex.normKey(k)
 	h, conc := hashable(k)
 	if conc && !m.hasSymKeys() {
@@ -882,6 +884,7 @@ func (ex *Exec) mapDelete(m *Map, k Value) {
 	if m == nil {
 		return
 	}
+	ex.noteMap(m, true)
 	k = ex.normKey(k)
 	for i, e := range m.entries {
 		if e.dead {
@@ -913,6 +916,7 @@ func (ex *Exec) newMapIter(m *Map) *MapIter {
 	if m == nil {
 		return it
 	}
+	ex.noteMap(m, false)
 	var live []int
 	for i, e := range m.entries {
 		if !e.dead {
@@ -962,6 +966,9 @@ func (ex *Exec) callBuiltin(b *ssa.Builtin, args []Value, site ssa.Instruction) 
 			return args[0]
 		}
 		s, _ := args[0].(Slice)
+		if ex.shared != nil && cap(s) > len(s) {
+			ex.noteWrite(&s[:len(s)+1][len(s)])
+		}
 		switch t := args[1].(type) {
 		case Slice:
 			if len(t) == 0 {
